@@ -32,7 +32,7 @@ ASSUMPTIONS = [
 
 @st.composite
 def cases(draw, tier):
-    spec = draw(nets.net_spec(cls="H", max_edges=7, max_size=4, allow_empty=False, allow_dups=True, with_attrs=True, orderable_ids=True,
+    spec = draw(nets.net_spec(wide_labels=True, cls="H", max_edges=7, max_size=4, allow_empty=False, allow_dups=True, with_attrs=True, orderable_ids=True,
                               ids=draw(st.sampled_from(["auto", "perm", "gap", "str", "zero-desc"]))))
     # raise the share of duplicates / singletons
     if spec["edges"] and draw(st.booleans()):
